@@ -75,6 +75,11 @@ def generate(tier, rng):
                         # the other chart types carry the same data (markers; areas filled down to the previous line)
                         if (k // 2) % 3 and (plotter == "plotly" or xdims is not None or all(isinstance(i, (int, float)) for i in uni[x]["items"])):
                             cases.append(dict(cases[-1], chart=["scatter", "area"][(k // 2) % 3 - 1]))
+                        # display names that give several items the same text (two variants shown as one product group), or give one
+                        # item the text of another: the lines drawn are still one per item, with that item's numbers
+                        if line and (k // 3) % 2:
+                            cases.append(dict(stream="plots", kind="plot", uni=uni, arr=dict(dims=dims, values=vals), x=x, sub=sub, line=line,
+                                              xdims=xdims, plotter=plotter, by_name=(k % 3 == 0), display=["merge", "swap"][(k // 6) % 2]))
     return cases
 
 
@@ -120,6 +125,9 @@ def run_impl(case):
     chart = case.get("chart", "line")
     if chart != "line":
         kw["chart_type"] = chart
+    if case.get("display"):
+        li = uni[case["line"]]["items"]
+        kw["display_names"] = ({i: "one group" for i in li} if case["display"] == "merge" or len(li) < 2 else {li[0]: li[1]})
 
     def xs(v):
         # categorical x (string items): recorded as the item codes of the dimension
